@@ -302,22 +302,89 @@ def _pyx_loop() -> tuple[list[str], str]:
     return rows, "translated"
 
 
+POISSON_KEEP = {"mask", "slope", "slope_min", "slope_max", "actual_acceleration", "acceleration", "r", "num_rows", "num_cols",
+                "seed", "radius_x", "radius_y", "center_fraction", "self", "np"}
+
+
+class _Subst(ast.NodeTransformer):
+    def __init__(self, env):
+        self.env = env
+
+    def visit_Name(self, node):
+        if isinstance(node.ctx, ast.Load) and node.id in self.env:
+            return ast.copy_location(self.env[node.id], node)
+        return node
+
+
+def _stores(node) -> set:
+    return {n.id for n in ast.walk(node) if isinstance(n, ast.Name) and isinstance(n.ctx, (ast.Store, ast.Del))}
+
+
+def poisson_env(fn) -> dict:
+    """single-assignment locals of `poisson` that merely name a sub-expression (hoisted loop invariants, named tests):
+    name -> defining expression with earlier such locals already substituted.  A local defined before the loop is only
+    resolved when nothing it reads is assigned inside the loop; a local defined inside the loop only when nothing it reads
+    is assigned later in the same iteration before... (checked at the use: see `_resolved`)."""
+    loops = [st for st in fn.body if isinstance(st, ast.While)]
+    loop_stores = _stores(loops[0]) if len(loops) == 1 else set()
+    counts: dict = {}
+    for st in all_stmts(fn):
+        for n in _stores(st) if not isinstance(st, (ast.While, ast.For, ast.If, ast.With, ast.Try)) else set():
+            counts[n] = counts.get(n, 0) + 1
+    env: dict = {}
+    in_loop = {id(s_) for s_ in ast.walk(loops[0])} if len(loops) == 1 else set()
+    for st in all_stmts(fn):
+        if not (isinstance(st, ast.Assign) and len(st.targets) == 1 and isinstance(st.targets[0], ast.Name)):
+            continue
+        name = st.targets[0].id
+        if name in POISSON_KEEP or counts.get(name, 0) != 1:
+            continue
+        val = _Subst(env).visit(ast.parse(ast.unparse(st.value), mode="eval").body)
+        free = {n.id for n in ast.walk(val) if isinstance(n, ast.Name)}
+        if name in free:
+            continue
+        if id(st) not in in_loop and free & loop_stores:
+            continue          # not loop invariant: hoisting it would change behaviour — leave the name, the tables then differ
+        if id(st) in in_loop:
+            # named inside the iteration: what it reads must not be assigned again later in the loop body
+            later = set()
+            for s2 in loops[0].body:
+                if s2.lineno > st.lineno:
+                    later |= _stores(s2)
+            if free & (later - {"slope_min", "slope_max"}):
+                continue
+        env[name] = val
+    return env
+
+
+def _resolved(node, env) -> str:
+    return ast.unparse(_Subst(env).visit(ast.parse(ast.unparse(node), mode="eval").body)).replace(" ", "")
+
+
+def _or_parts(test):
+    return list(test.values) if isinstance(test, ast.BoolOp) and isinstance(test.op, ast.Or) else [test]
+
+
 def _poisson_skeleton(tree) -> tuple[list[str], str]:
     try:
         fn = _method(tree, "VariableDensityPoissonMaskFunc.poisson")
     except Untranslatable as e:
         return [], f"skipped: {e}"
+    env = poisson_env(fn)
     toks = []
-    norm = lambda n: ast.unparse(n).replace(" ", "")  # noqa: E731
+    norm = lambda n: _resolved(n, env)  # noqa: E731
     for st in fn.body:
         if isinstance(st, ast.While):
             toks.append("while:" + norm(st.test))
             for s in st.body:
                 if isinstance(s, ast.If) and len(s.body) == 1 and isinstance(s.body[0], ast.Break) and not s.orelse:
-                    toks.append("break_if:" + norm(s.test))
+                    # `if a: break` + `if b: break`  ==  `if a or b: break` (tests evaluated in the same order)
+                    resolved = _Subst(env).visit(ast.parse(ast.unparse(s.test), mode="eval").body)
+                    for part in _or_parts(resolved):
+                        toks.append("break_if:" + ast.unparse(part).replace(" ", ""))
                 elif isinstance(s, ast.If):
                     toks.append("if:" + norm(s.test))
-                elif isinstance(s, ast.Assign) and norm(s.targets[0]) == "actual_acceleration":
+                elif isinstance(s, ast.Assign) and ast.unparse(s.targets[0]) == "actual_acceleration":
                     toks.append("actual:" + norm(s.value))
         elif isinstance(st, ast.If) and st.body and isinstance(st.body[0], ast.Raise):
             toks.append("raise_if:" + norm(st.test))
@@ -336,10 +403,35 @@ OPTIONS_EXPECTED = [
 ]
 
 
+def _target_text(t) -> str:
+    return ",".join(ast.unparse(e).replace(" ", "") for e in t.elts) if isinstance(t, ast.Tuple) else ast.unparse(t).replace(" ", "")
+
+
+def _tuple_text(t: str) -> str:
+    """`a,b` and `(a,b)` on the right-hand side of a tuple assignment are the same thing"""
+    try:
+        node = ast.parse(t, mode="eval").body
+    except SyntaxError:
+        return t
+    return "(" + ",".join(ast.unparse(e).replace(" ", "") for e in node.elts) + ")" if isinstance(node, ast.Tuple) else t
+
+
 def poisson_interval(tree):
     """(midpoint expression over Rat, update table, initial-interval table, option-use table) of `poisson`"""
     fn = _method(tree, "VariableDensityPoissonMaskFunc.poisson")
-    norm = lambda n: ast.unparse(n).replace(" ", "")  # noqa: E731
+    env = poisson_env(fn)
+
+    def norm(n):
+        if isinstance(n, ast.stmt):
+            # statements: resolve the expression parts, keep the targets
+            if isinstance(n, ast.Assign):
+                return ",".join(_target_text(t) for t in n.targets) + "=" + _tuple_text(_resolved(n.value, env))
+            if isinstance(n, ast.AugAssign):
+                return ast.unparse(n.target).replace(" ", "") + {ast.Mult: "*=", ast.Add: "+=", ast.BitAnd: "&=", ast.BitOr: "|="}.get(
+                    type(n.op), "?=") + _resolved(n.value, env)
+            return ast.unparse(n).replace(" ", "")
+        return _resolved(n, env)
+
     loops = [st for st in fn.body if isinstance(st, ast.While)]
     if len(loops) != 1:
         raise Untranslatable("bisection loop not found")
@@ -369,6 +461,11 @@ def poisson_interval(tree):
                 isinstance(n, ast.Name) and isinstance(n.ctx, ast.Store) and n.id == "slope_min" for n in ast.walk(st)):
             if len(st.body) == 1 and len(st.orelse) == 1:
                 init = [(norm(st.test), norm(st.body[0])), ("else", norm(st.orelse[0]))]
+        elif (isinstance(st, ast.Assign) and isinstance(st.value, ast.IfExp) and "slope_min" in _stores(st)):
+            # `lo, hi = A if c else B`  ==  `if c: lo, hi = A  else: lo, hi = B` (one decision tree)
+            tg = ",".join(_target_text(t) for t in st.targets)
+            init = [(norm(st.value.test), tg + "=" + _tuple_text(norm(st.value.body))),
+                    ("else", tg + "=" + _tuple_text(norm(st.value.orelse)))]
     if init is None:
         raise Untranslatable("initial interval not found")
     # options
